@@ -124,7 +124,9 @@ package internal
 //@   modifies nothing
 //@   loop 0
 //@     invariant len(cmd) >= 2
+//@ ufun iswritecmd(c internal.Command, s internal.SubCommand) bool
 //@ func IsWriteCommand trusted props C07
+//@   ensures result == iswritecmd(command, subCommand)
 //@   modifies nothing
 
 // ---- message framing ---------------------------------------------------------------------------
